@@ -8,6 +8,7 @@ case per occurrence, trivia at every inter-token slot incl. CRLF, form feed, mul
 ';' after END_IF): the libraries must be equal by Rust's own == and the analysis code sets must be equal; per-keyword sweep."""
 import ast_common
 import gen_ast
+import re
 import gen_prog
 import gen_sem
 import gen_text
@@ -72,7 +73,12 @@ def search(run, info):
     for _ in range(60 if run.tier == "quick" else 600):
         u = gen_sem.gen_valid(rng)
         base = gen_sem.render(u)
-        other = "".join(ch.upper() if rng.random() < 0.5 else ch.lower() for ch in base) if rng.random() < 0.5 else base.swapcase()
+        # letters outside character strings only: the contents of a string literal are data, not spelling
+        flip = rng.random() < 0.5
+        import re as _rx
+        parts = _rx.split(r"('[^']*')", base)
+        other = "".join(p if p.startswith("'") else ("".join(ch.upper() if rng.random() < 0.5 else ch.lower() for ch in p) if flip else p.swapcase())
+                        for p in parts)
         meta.append((-1, "valid-unit", base, other, "case"))
         cases.append({"id": len(cases), "op": "respell", "a": hexs(base), "b": hexs(other), "analyze": True})
     # per-keyword sweep: every alphabetic keyword that occurs in the generated texts, in lower / upper / alternating case
